@@ -42,7 +42,10 @@ class ShortLinkControl(BitsInterface):
             )
             self.crc_ok: bool = True
         else:
-            self.crc_ok: bool = CRC8.check(self.as_bits()[:28], ba2int(self.crc_8bit))
+            # crc_8bit holds the bits in on-air order, least significant bit first
+            self.crc_ok: bool = CRC8.check(
+                self.as_bits()[:28], int(self.crc_8bit.to01()[::-1], 2)
+            )
 
     def __repr__(self) -> str:
         descr: str = f"[{self.slco}]"
